@@ -302,11 +302,14 @@ func init() {
 		Register(c13Profile(tier))
 	})
 	Registry["C08"] = func(r *Run) {
-		r.Rule = "every sequence of <=depth ops over the mixed alphabet (KV with TTL/delete, list, set, sorted set; single- and multi-call bodies including calls that are no-ops at commit time); plus a many-files profile (one record per segment, six-record transactions: up to 18 files per history, two-digit file ids); at EVERY explored state the database is closed and reopened with the same options and the full observation (all buckets, all structures) before Close is compared query by query with the observation after Open; reopen is also an op, so histories continue from reopened states"
+		r.Rule = "every sequence of <=depth ops over the mixed alphabet (KV with TTL/delete, list, set, sorted set; single- and multi-call bodies including calls that are no-ops at commit time); plus a many-files profile (one record per segment, six-record transactions: up to 18 files per history, two-digit file ids); at EVERY explored state the database is closed and reopened with the same options and the full observation (all buckets, all structures) before Close is compared query by query with the observation after Open; reopen is also an op, so histories continue from reopened states; plus the long deterministic KV families of C02 (reopen in the middle and at the end) in MMap and FileIO configurations, judged against the reference model after every step"
 		r.Assume = []string{"list/set/zset ops only in HintKeyValAndRAMIdxMode (documented as the only mode supporting them)", "an Open error is C09's violation, not C08's"}
 		r.Required = []string{"reopen-at-leaf", "rotated", "multi-call-tx", "commit-time-noop-candidate", "more-than-10-segment-files"}
 		r.Explore(c08Profile(r.Tier), "C08")
 		r.Explore(c08ManyFilesProfile(r.Tier), "C08")
+		// long histories with reopens in the middle: commits that reach the end of a segment which
+		// was the active one at Open (judged against the reference model after every step)
+		runKVLong(r, "C08", []core.Cfg{{Mode: core.KV, RW: core.M, Start: core.M, Seg: 392}, {Mode: core.K, RW: core.M, Start: core.M, Seg: 410}, {Mode: core.KV, Seg: 300}})
 	}
 	Registry["C13"] = func(r *Run) {
 		r.Rule = "from every start state reached by <=2 set-up ops, every two-call (thorough: three-call) write transaction in which the second call reads, pops or modifies what the first call wrote (lists, sets, sorted sets, KV: all mutator x call pairs); per-call results and the state after Commit are compared with the sequential composition of the calls on the reference model"
